@@ -49,6 +49,9 @@ def run_harness(exe, cases, tag, timeout=600):
     while start < len(cases):
         path = os.path.join(rundir, "C19.%d.%s.cases" % (os.getpid(), tag))
         write_cases(path, cases[start:], start)
+        if not os.path.exists(exe):
+            # the build cache is shared and garbage-collected by concurrent checks of other tree states
+            exe = vlib.build_harness("C19")
         rc, out, err = vlib.sh([exe, "run", path], timeout=timeout)
         os.remove(path)
         bl = blocks(out)
@@ -707,7 +710,7 @@ class Runner:
             return None
         return (j, hl, hstat, m[0])
 
-    def shrink(self, case, j, sig, budget=120):
+    def shrink(self, case, j, sig, budget=400):
         """delta debugging on the operation list (operations after the failing one are dropped first)"""
         cur = {"kind": case["kind"], "ops": case["ops"][:j], "family": case.get("family")}
         n = 2
@@ -791,7 +794,9 @@ def main():
         sig, what, clauses = judge(case, hl, hstat, ml, j)
         sig = canonical(sig)
         small = case
-        if sig not in shrunk and len(shrunk) < 12:
+        import re as _re
+        is_known = any(_re.fullmatch(k["signature"], sig) for k in ck.known)
+        if sig not in shrunk and len(shrunk) < 12 and not is_known:
             shrunk.add(sig)
             small = rn.shrink(case, j, sig)
             r = rn.fails(small, sig)
@@ -834,11 +839,19 @@ def main():
         "Coq 8.16.1 kernel (coqc), no native_compute",
         ("axioms: none (Print Assumptions: closed under the global context)" if proved and not ck.coq["axioms"] else
          "axioms: " + ", ".join(getattr(ck, "coq", {}).get("axioms", []))) if hasattr(ck, "coq") else "proofs skipped (dev)",
-        "extraction: ExtrOcamlBasic only; OCaml 4.13.1; extract/zutil.ml + extract/C19/driver.ml (parsing and printing only)",
+        "extraction: ExtrOcamlBasic only; OCaml 4.13.1; extract/zutil.ml + extract/C19/driver.ml (parsing, printing, register "
+        "bookkeeping of the vector machine and the precondition guards; every state transformation is an extracted function)",
         "harness/C19.cpp compiled with g++ -fno-access-control against /repo/src (prints public lookups and, for DataSet/ClassSet, the free list)",
         "checks/C19.py (generators, comparison, the independent property oracle used to classify mismatches)"]
     ck.assumptions = ["operations are issued only when their documented preconditions hold (the harness and the model apply the same guard "
-                      "and report 'skip' otherwise)"]
+                      "and report 'skip' otherwise); sparse operands of SSVector assignment / multAdd have no repeated index",
+                      "double entries are small dyadic numbers (k/8, scaled by powers of two, at most a few multiplications by 3) so that the "
+                      "floating-point operations are exact; Rational entries are arbitrary small fractions; epsilon = 1e-16 (Tolerances default)",
+                      "NameSet growth test size()+1 > 0.7*max() is modelled exactly (10*(size+1) > 7*max); the double product differs from it only "
+                      "for max() in {90, 170, 180, ...}; the capacities reachable with the generated sequences (at most 8 names, reMax < 30) stay below 90",
+                      "SVSet / LPRowSet / LPColSet: the nonzero arena is not modelled (memRemax, memPack, xtend are checked to leave every "
+                      "vector unchanged); copying a set without vectors is not compared",
+                      "hash functions return non-negative values (DataHashTable indexes with hash % size)"]
     ck.finish()
 
 
